@@ -330,3 +330,28 @@ func CborHead(major byte, v uint64) []byte {
 
 // BoundaryValues are the length/count values of C04's quantifier.
 var BoundaryValues = []uint64{0, 1, 23, 24, 1 << 16, 1<<31 - 1, 1 << 31, 1<<32 - 1, 1 << 62, 1 << 63, 1<<64 - 1}
+
+// DatagramFault is one malformed variant of a well-formed CBOR datagram.
+type DatagramFault struct {
+	What string
+	Data []byte
+}
+
+// DatagramFaults enumerates, for a well-formed CBOR datagram: truncation at every offset, and
+// every string/array/map header set to each boundary value (rest of the datagram unchanged, and
+// again with the datagram ending right after the header).
+func DatagramFaults(valid []byte) []DatagramFault {
+	var out []DatagramFault
+	for k := 0; k < len(valid); k++ {
+		out = append(out, DatagramFault{fmt.Sprintf("cut after %d of %d bytes", k, len(valid)), append([]byte(nil), valid[:k]...)})
+	}
+	for _, h := range CborHeaders(valid) {
+		for _, v := range BoundaryValues {
+			head := CborHead(h.Major, v)
+			mut := append(append(append([]byte(nil), valid[:h.Pos]...), head...), valid[h.Pos+h.Len:]...)
+			out = append(out, DatagramFault{fmt.Sprintf("header(major %d, value %d) at offset %d set to %d", h.Major, h.Value, h.Pos, v), mut})
+			out = append(out, DatagramFault{fmt.Sprintf("header(major %d, value %d) at offset %d set to %d, datagram ends there", h.Major, h.Value, h.Pos, v), mut[:h.Pos+len(head)]})
+		}
+	}
+	return out
+}
